@@ -8,7 +8,7 @@ from fractions import Fraction
 from ..index import AnalysisError
 from ..poly import Rat, apply_fn
 from ..ranges import Iv
-from ..values import Obj, Raised, SymBool
+from ..values import Obj, Raised, SymBool, to_rat
 from ..arrays import SymVec
 
 LEVEL = "proof"
@@ -121,7 +121,22 @@ def run(ctx):
     y1 = Rat.atom(("idx", "signal", i1))
     frac = idx - fl
     # valid branch / invalid branch through assume on the symbolic `valid`
-    res = it2.call_method(mk("linear"), "get_amplitude", tt, Rat.atom("P"), 0)
+    # a cast to the samples' own element type is not the identity (the samples may be integers): keep it visible
+    from .. import absint
+    from ..values import Builtin
+
+    old_scalar_attr = absint.scalar_attr
+
+    def scalar_attr(interp, v, name):
+        if name == "astype":
+            return Builtin("astype", lambda it_, a, k_, _v=v: Rat.atom(("cast", to_rat(_v).fmt(), "element type of the samples")) if a and isinstance(a[0], tuple) and a[0][:1] == ("dtype-of",) else _v)
+        return old_scalar_attr(interp, v, name)
+
+    absint.scalar_attr = scalar_attr
+    try:
+        res = it2.call_method(mk("linear"), "get_amplitude", tt, Rat.atom("P"), 0)
+    finally:
+        absint.scalar_attr = old_scalar_attr
     res = Rat.lift(res)
     inds = [a for a in res.atoms() if isinstance(a, tuple) and a and a[0] == "ind"]
     ok = len(inds) == 1
